@@ -5,12 +5,14 @@ record; that squid calls the logger exactly once per finished transaction is cov
 Model: `SquidModel.Log.Quote` (log_quoted_string, Format::QuoteMimeBlob, rfc1738_do_escape, strwordquote, the quoting switch
 at the end of Format::assemble, Log::Format::SquidCustom). All statements are for every byte string, no length bound.
 
-The full statement "client bytes cannot introduce extra lines or field separators under ANY logformat quoting" is false of the
-real code in two places, both by construction of `Format::assemble` (see the `_counterexample` theorems):
-  * `%'code` (LOG_QUOTE_RAW) copies the value as it is;
-  * a %code whose `case` does not set `quote = 1` (e.g. %un, %ul, %ue, %credentials, %ru, %mt) is *not quoted at all* under the default
-    quoting: `if (quote || fmt->quote != LOG_QUOTE_NONE)`; a user name with a space yields a record with an extra field.
-`record_is_one_line` therefore carries the hypothesis that every %code is either quoted (explicitly, or by default because the field
+Limits of the statement, by construction of `Format::assemble`:
+  * `%'code` (LOG_QUOTE_RAW) copies the value as it is — raw is "no quoting" by definition (`raw_quoting_counterexample`);
+  * a %code whose `case` does not set `quote = 1` is not quoted under the default style (`if (quote || fmt->quote != LOG_QUOTE_NONE)`).
+    Until /repo commit a3f7a36 that included the client-chosen user name (%un, %ul, %ue): `prefix_unquoted_field_counterexample`.
+    The user name codes ask for quoting now (`user_name_asks_quote`, regenerated from the source on every run) and
+    `user_name_field_well_delimited` holds at full strength; the remaining non-asking codes carry numbers, addresses and
+    squid-generated tokens (list in Gen/LogQuoting.lean).
+`record_is_one_line` carries the hypothesis that every %code is either quoted (explicitly, or by default because the field
 asked for it) or holds a value without LF; the separator theorems are per quoting style.
 -/
 import SquidModel.Log.Lemmas
@@ -204,9 +206,30 @@ theorem shell_word_delimited (v rest : Bytes) :
 /-- `%'code`: raw quoting copies a line break -/
 theorem raw_quoting_counterexample : field true .raw (some [97, 10, 98]) = [97, 10, 98] := by decide
 
-/-- a %code that does not ask for quoting (`%un`, `%ul`, `%ru`, ...) is copied unquoted under the default style:
-the user name `a b` yields two fields -/
-theorem default_unquoted_field_counterexample : field false .none (some [97, 32, 98]) = [97, 32, 98] := by decide
+/-- Pre-fix counterexample (labelled; tree before a3f7a36, where the `case` of %un did not set `quote`): a %code that does not ask
+for quoting is copied unquoted under the default style: the user name `a b` yielded two fields. Still true of `field false`. -/
+theorem prefix_unquoted_field_counterexample : field false .none (some [97, 32, 98]) = [97, 32, 98] := by decide
+
+/-! ### the user name codes in the tree as it is -/
+
+/-- regenerated from `case LFT_USER_NAME` of Format::assemble: the field asks for quoting -/
+theorem user_name_asks_quote : userNameAsksQuote = true := rfl
+
+/-- Whatever the user name and whatever style but raw: the %un field contains no line break, and under the default / URL style no blank. -/
+theorem user_name_field_well_delimited (q : Quoting) (u : Bytes) (hq : q ≠ .raw) :
+    (field userNameAsksQuote q (some u)).contains 10 = false ∧ (field userNameAsksQuote q (some u)).contains 13 = false ∧
+    (q = .none ∨ q = .url → (field userNameAsksQuote q (some u)).contains 32 = false) := by
+  have h := no_raw_CR_LF userNameAsksQuote q u hq (Or.inl user_name_asks_quote)
+  refine ⟨h.1, h.2, ?_⟩
+  intro hq'
+  rw [user_name_asks_quote]
+  unfold field
+  simp only
+  split
+  · decide
+  · rcases hq' with rfl | rfl
+    · exact (no_raw_separator_default_url u).1
+    · exact (no_raw_separator_default_url u).2.1
 
 /-! ### non-vacuity -/
 
